@@ -145,5 +145,34 @@ META.update({
         technique=TECH),
 })
 
+META.update({
+    'C12': dict(
+        text='Theorems Props.C12_no_race and C12_no_deadlock (Coq, no axioms), proved once for ANY lock/access table that passes the '
+             'per-path lockset check, any number of threads and any schedule: no two threads are ever about to perform conflicting '
+             'accesses, and some thread can always move. Per run, harness/cmd/xlate re-translates container.go / web_service.go / '
+             'curly.go / jsr311.go into coq/gen/Generated_Locks.v and genprops/C12_generated.v re-proves lockset_ok of THAT table '
+             '(generated_lockset_ok, generated_race_free). On the unrepaired tree this theorem failed with the offenders curly.go:49 '
+             'and container.go:316/141; the race detector and the stress run reproduced races, wrong answers and panics (fixed: F2, '
+             'F3). PARTIAL: "answered by a state that existed during the request" and the frame clause are checked by the stress '
+             'classification (both routers, both entry points) and the race detector, not by a theorem; the translator, Go\'s memory '
+             'model and sync.RWMutex are trusted.',
+        design_ref='DESIGN.md section 6, C12',
+        note='trusted: Coq kernel, translator cmd/xlate (fails closed), Go race detector, harness; lock semantics as written in Model.Conc',
+        technique='Coq theorem over translated lock/access table (regenerated from source each run) + race-detector stress'),
+    'C13': dict(
+        text='Theorems Props.C13_exclusive (no object idle twice, idle and held, or held twice — every capacity, client count, program '
+             'and schedule), C13_nonblocking (programs of always-enabled steps never block) and C13_check_then_send_refuted (the '
+             'length-check-then-send release deadlocks at capacity 1 with two clients) (Coq, no axioms). Per run, harness/cmd/xlate '
+             're-translates compressor_cache.go / compressor_pools.go into coq/gen/Generated_Pool.v and genprops/C13_generated.v '
+             're-proves that every Acquire*/Release* has a recognised shape and only always-enabled steps (generated_nonblocking, '
+             'generated_clients_never_block). On the unrepaired tree that theorem failed and the stress run showed goroutines parked '
+             'in ReleaseGzipWriter (fixed: F1). Release-exactly-once by the framework is C07_discipline; the ledger of an '
+             'instrumenting provider, object identities on sequential histories (vs the channel model) and decoded bodies under '
+             'concurrency are compared on the implementation. PARTIAL: translator and channel / sync.Pool semantics trusted.',
+        design_ref='DESIGN.md section 6, C13',
+        note='trusted: Coq kernel, translator cmd/xlate (fails closed), harness; channel / sync.Pool semantics as written in Model.Pool',
+        technique='Coq theorem over translated step programs (regenerated from source each run) + watchdog/ledger stress'),
+})
+
 ALL = ['C%02d' % i for i in range(1, 20)]
 NOT_APPLICABLE = [dict(property_id=p, reason=PARTIAL_NOT_YET) for p in ALL if p not in META]
